@@ -265,5 +265,76 @@ def filter_sites(filter_names: list[str]) -> list[dict[str, Any]]:
     return L
 
 
+CARRIER_SHAPES = ("call_dict", "call_drop", "call_list", "call_top")
+
+
+def callable_sites() -> list[dict[str, Any]]:
+    """Paths that continue THROUGH an item whose value is callable.  ``@P@`` is the path to
+    the callable (obj.<kind> / obj['<kind>'] / obj[i] / obj); ``@N@`` ranges over the keys of
+    what a call WOULD return (token, list, nested, n) -- all hidden behind the call, so each
+    must behave exactly like a name that exists nowhere.  ``objs`` is the list of all the
+    callables.  The callable itself is never printed on purpose by these sites' key parts."""
+    C = lambda i, src, rel=True: S(f"call.{i}", src, rel=rel, only=CARRIER_SHAPES)  # noqa: E731
+    return [
+        C("path_dot", "[{{ @P@.@N@ }}]"),
+        C("path_bracket", "[{{ @P@['@N@'] }}]"),
+        C("path_var", "[{{ @P@[k] }}]|[{{ @P@[kd] }}]"),
+        C("path_deeper", "[{{ @P@.@N@.token }}]|[{{ @P@.nested.@N@ }}]|[{{ @P@.@N@[0] }}]"),
+        C("path_size", "[{{ @P@.size }}]", rel=False),
+        C("path_first", "[{{ @P@.first }}]", rel=False),
+        C("path_last", "[{{ @P@.last }}]", rel=False),
+        C("path_special_then", "[{{ @P@.first.@N@ }}]|[{{ @P@.size.@N@ }}]|[{{ @P@.@N@.size }}]|[{{ @P@.@N@.first }}]|[{{ @P@.@N@.last }}]"),
+        C("path_index", "[{{ @P@[0] }}]|[{{ @P@[0].@N@ }}]|[{{ @P@[-1] }}]"),
+        C("cond_if", "[{% if @P@.@N@ %}yes{% else %}no{% endif %}]|[{% unless @P@[k] %}U{% endunless %}]"),
+        C("cond_eq", "[{% if @P@.@N@ == 'x' %}T{% else %}F{% endif %}]|[{% if @P@.@N@ != nil %}NN{% endif %}]|[{% if @P@.@N@ contains 'CNRY' %}C{% endif %}]"),
+        C("cond_case", "[{% case @P@.@N@ %}{% when 'x' %}X{% when nil %}N{% else %}E{% endcase %}]"),
+        C("cond_contains", "[{% if @P@ contains '@N@' %}T{% else %}F{% endif %}]|[{% if '@N@' in @P@ %}T{% else %}F{% endif %}]"),
+        C("ternary", "[{{ @P@.@N@ if @P@.@N@ else 'E' }}]|[{{ 'a' if @P@[k] else 'b' }}]"),
+        C("assign", "{% assign z = @P@.@N@ %}[{{ z }}]|{% assign w = @P@ %}[{{ w.@N@ }}]|[{{ w[k] }}]"),
+        C("capture", "{% capture c %}{{ @P@.@N@ }}{% endcapture %}[{{ c }}]"),
+        C("tstr", "[{{ \"a${@P@.@N@}b\" }}]"),
+        C("for_through", "{% for x in @P@.@N@ %}[{{ x }}]{% else %}EMPTY{% endfor %}"),
+        C("for_callable", "{% for x in @P@ %}[{{ x.@N@ }}|{{ x[1] }}]{% else %}EMPTY{% endfor %}"),
+        C("for_objs", "{% for f in objs %}[{{ f.@N@ }}|{{ f[k] }}]{% endfor %}"),
+        C("for_limit", "{% for x in arr limit: @P@.n offset: @P@.@N@ %}[{{ x }}]{% endfor %}"),
+        C("tablerow", "{% tablerow x in @P@.@N@ %}{{ x }}{% endtablerow %}|{% tablerow f in objs %}{{ f.@N@ }}{% endtablerow %}"),
+        C("with", "{% with w: @P@, v: @P@.@N@ %}[{{ w.@N@ }}|{{ w[k] }}|{{ v }}]{% endwith %}"),
+        C("include", "{% include 'p_tok' with @P@ as it %}|{% include 'p_tok', it: @P@, v: @P@.@N@ %}"),
+        C("render", "{% render 'p_tok' with @P@ as it, k: k %}|{% render 'p_tok', it: @P@, v: @P@.@N@, k: k %}"),
+        C("render_for", "{% render 'p_tok' for objs as it, k: k %}|{% include 'p_tok' for objs as it %}"),
+        C("macro", "{% macro m a, b: @P@.@N@ %}[{{ a.@N@ }}|{{ a[k] }}|{{ b }}]{% endmacro %}{% call m @P@ %}"),
+        C("translate", "{% translate x: @P@.@N@ %}T {{ x }}{% endtranslate %}|{{ 'A %(x)s' | t: x: @P@.@N@ }}"),
+        C("cycle", "[{% cycle @P@.@N@, 'b' %}]"),
+        C("range", "[{% for i in (1..@P@.n) %}{{ i }}{% endfor %}]|[{{ (1..@P@.@N@) | join: ',' }}]"),
+        C("liquidtag", "{% liquid\nassign z = @P@.@N@\necho z\n%}"),
+        C("f_after", "[{{ @P@.@N@ | upcase }}]|[{{ @P@.@N@ | default: 'PUB_D' }}]|[{{ @P@.@N@ | join: ',' }}]|[{{ @P@.@N@ | size }}]|[{{ @P@.@N@ | json }}]"),
+        C("f_map", "[{{ @P@ | map: '@N@' }}]|[{{ objs | map: '@N@' }}]"),
+        C("f_map_lambda", "[{{ @P@ | map: x => x.@N@ }}]|[{{ objs | map: x => x.@N@ }}]|[{{ objs | map: x => x[k] }}]"),
+        C("f_where", "[{{ objs | where: '@N@' | size }}]|[{{ objs | reject: '@N@' | size }}]|[{{ objs | find_index: '@N@' }}]|[{{ objs | has: '@N@' }}]"),
+        C("f_where_lambda", "[{{ objs | where: x => x.@N@ | size }}]|[{{ objs | find_index: x => x.@N@ }}]|[{{ objs | has: x => x.@N@ == 41 }}]"),
+        C("f_sum", "[{{ objs | sum: '@N@' }}]|[{{ @P@ | sum: '@N@' }}]|[{{ objs | sum: x => x.@N@ }}]"),
+        C("f_sort", "[{{ objs | sort: '@N@' | size }}]|[{{ objs | sort_natural: '@N@' | size }}]|[{{ objs | sort_numeric: '@N@' | size }}]|[{{ objs | uniq: x => x.@N@ | size }}]"),
+        C("f_compact", "[{{ objs | compact: x => x.@N@ | size }}]"),
+        C("f_size", "[{{ @P@ | size }}]|[{{ @P@ | first }}]|[{{ @P@ | last }}]", rel=False),
+        C("f_date", "[{{ @P@ | date: '%Y' }}]", rel=False),
+        C("f_math", "[{{ @P@ | plus: 1 }}]|[{{ 1 | plus: @P@ }}]|[{{ @P@ | abs }}]", rel=False),
+        C("f_default", "[{{ @P@.@N@ | default: @P@.nested.token }}]"),
+        C("f_t", "[{{ 'M0' | t: obj: @P@.@N@ }}]"),
+        # the callable itself is printed / stringified (its repr is what the host exposed; a CALL is not)
+        C("print", "[{{ @P@ }}]|{% echo @P@ %}|[{{ \"${@P@}\" }}]", rel=False),
+        C("print_objs", "[{{ objs }}]|[{{ objs | join: ',' }}]|[{{ obj }}]", rel=False),
+        C("print_filters", "[{{ @P@ | append: 'x' }}]|[{{ @P@ | upcase }}]|[{{ 'x' | append: @P@ }}]|[{{ @P@ | default: 'PUB_D' }}]|[{{ @P@ | escape }}]", rel=False),
+        C("print_json", "[{{ @P@ | json }}]", rel=False),
+        C("print_t", "[{{ @P@ | t }}]|[{{ 'A %(x)s' | t: x: @P@ }}]|{% translate x: @P@ %}T {{ x }}{% endtranslate %}", rel=False),
+        C("print_capture", "{% capture c %}{{ @P@ }}{% endcapture %}[{{ c | size }}]|{% assign z = @P@ %}[{{ z }}]", rel=False),
+        C("truthy", "[{% if @P@ %}T{% else %}F{% endif %}]|[{% if @P@ == empty %}E{% endif %}]|[{% if @P@ == 'x' %}X{% endif %}]|[{% if @P@ < 3 %}L{% endif %}]", rel=False),
+        C("truthy_case", "[{% case @P@ %}{% when 'x' %}X{% else %}E{% endcase %}]|[{{ 'a' if @P@ else 'b' }}]", rel=False),
+    ]
+
+
+PARTIALS["p_tok"] = "[{{ it.@N@ }}|{{ it[k] }}|{{ it['@N@'] }}|{{ v }}|{{ p_tok.@N@ }}]"
+
+
 def all_sites(filter_names: list[str]) -> list[dict[str, Any]]:
-    return path_sites() + tag_sites() + engine_sites() + i18n_sites() + filter_sites(filter_names)
+    return (path_sites() + tag_sites() + engine_sites() + i18n_sites() + filter_sites(filter_names)
+            + callable_sites())
